@@ -103,7 +103,7 @@ extern "C" {
 //> for method in type_def.methods:
 [[maybe_unused]] JNIEXPORT {{ method.jni.return_type_spec }} JNICALL {{ type_def.jni.jni_prefix }}_00024CppProxy_{{ "native_1" if not method.static }}{{ method.jni.name }}(JNIEnv* jniEnv, {{ "jclass" if method.static else "jobject, jlong nativeRef" }}
     /*>- for parameter in method.parameters -*/
-    , {{ parameter.type_ref.type_def.jni.typename.value }} {{ parameter.jni.name }}
+    , {{ parameter.jni.typename }} {{ parameter.jni.name }}
     /*>- endfor -*/
     ) noexcept {
     const ::pydjinni::jni::Jni jni { jniEnv };
